@@ -39,6 +39,30 @@ def do_setup(job):
     return sch, key, db, sch.EDBSetup(key, db)
 
 
+def recorded_reads(scheme, sch, key, db, edb):
+    log = []
+
+    class Rec(list):
+        def __init__(self, items, tag=None):
+            super().__init__(items)
+            self.tag = tag
+
+        def __getitem__(self, i):
+            if not isinstance(i, slice):
+                log.append(i if self.tag is None else [self.tag, i])
+            return list.__getitem__(self, i)
+    if scheme == "DP17.Pi":
+        edb.A_dict = {lvl: Rec(lst, lvl) for lvl, lst in edb.A_dict.items()}
+    else:
+        edb.A = Rec(edb.A)
+    reads = []
+    for w in db:
+        del log[:]
+        sch.Search(edb, sch.TokenGen(key, w))
+        reads.append(list(log))
+    return reads
+
+
 def main():
     job = json.load(open(sys.argv[1]))
     kind = job["kind"]
@@ -89,29 +113,36 @@ def main():
             res.append(sorted(x.hex() for x in back) if is_set else [x.hex() for x in back])
         out["results"] = res
         out["is_set"] = is_set
+    elif kind == "reads_forked":
+        # a parent process builds the scheme object (and uses it once), then pre-forks two workers that share this very object:
+        # each encrypts the same (key, database) and records which slots its searches read
+        loader = load(job["scheme"])
+        cobj = loader.SSEConfig(json.loads(json.dumps(job["cfg"])))
+        sch = loader.SSEScheme(json.loads(json.dumps(job["cfg"])))
+        key = loader.SSEKey.deserialize(B(job["key_hex"]), cobj)
+        db = {B(k): [B(x) for x in v] for k, v in job["db"]}
+        sch.EDBSetup(key, db)
+        outs = []
+        for i in range(2):
+            r, w = os.pipe()
+            pid = os.fork()
+            if pid == 0:
+                os.close(r)
+                try:
+                    data = json.dumps(recorded_reads(job["scheme"], sch, key, db, sch.EDBSetup(key, db))).encode()
+                except BaseException as e:  # noqa
+                    data = json.dumps({"exception": "%s: %s" % (type(e).__name__, e)}).encode()
+                with os.fdopen(w, "wb") as f:
+                    f.write(data)
+                os._exit(0)
+            os.close(w)
+            with os.fdopen(r, "rb") as f:
+                outs.append(json.loads(f.read().decode() or "null"))
+            os.waitpid(pid, 0)
+        out["reads_list"] = outs
     elif kind == "reads":
         sch, key, db, edb = do_setup(job)
-        log = []
-
-        class Rec(list):
-            def __init__(self, items, tag=None):
-                super().__init__(items)
-                self.tag = tag
-
-            def __getitem__(self, i):
-                if not isinstance(i, slice):
-                    log.append(i if self.tag is None else [self.tag, i])
-                return list.__getitem__(self, i)
-        if job["scheme"] == "DP17.Pi":
-            edb.A_dict = {lvl: Rec(lst, lvl) for lvl, lst in edb.A_dict.items()}
-        else:
-            edb.A = Rec(edb.A)
-        reads = []
-        for w in db:
-            del log[:]
-            sch.Search(edb, sch.TokenGen(key, w))
-            reads.append(list(log))
-        out["reads"] = reads
+        out["reads"] = recorded_reads(job["scheme"], sch, key, db, edb)
     else:
         raise ValueError(kind)
     with open(sys.argv[2], "w") as f:
